@@ -133,7 +133,7 @@ class Check(object):
             inc = r_or_stats.get("inconclusive", [])
             self.cov["inconclusive"] += len(inc)
             for i in inc[:3]:
-                self.cov["notes"].append("inconclusive event %s: %s" % (i.get("id"), (i.get("error") or "")[:200]))
+                self.cov["notes"].append("inconclusive event %s: %s" % (i.get("id"), (i.get("error") or "")[:700]))
         else:
             self.cov["states"] += r_or_stats.distinct
             self.cov["transitions"] += r_or_stats.generated
